@@ -365,15 +365,19 @@ def step (st : St) (_n : Nat) (line : String) : St × List Finding :=
     | "stats" =>
       let so := (getObj? obs "stats").getD Json.null
       let live := st.w.conns.flatMap (·.2.sessions)
-      let wantHeld := (live.filter fun s => s.pdrs.any (·.allocIP)).length
+      -- an address belongs to the session it was allocated for until that session ends (whatever happens to the rule
+      -- that asked for it): held = the model pool's holders that are live sessions
+      let wantHeld := ((st.w.pool.map (·.inv)).getD []).filter (fun e => live.any (·.lseid == e.1)) |>.length
       let wantTeid := (live.flatMap fun s => s.pdrs.filter (·.chooseTeid)).length
       let modelHeld := (st.w.pool.map (·.inv.length)).getD 0
       let (st', tf) := tableFindings st obs true "stats"
       (st', (if !getBool obs "alive" then [⟨"C01", "agent died"⟩] else
         (if st.w.pool.isSome ∧ getNat so "pool_held" != wantHeld then
-          [⟨"C05", s!"{getNat so "pool_held"} UE addresses are held but {wantHeld} live sessions hold one (addresses not returned)"⟩] else []) ++
+          [⟨"C05", s!"{getNat so "pool_held"} UE addresses are held but {wantHeld} live sessions hold one (addresses not returned)"⟩,
+           ⟨"C06", s!"the pool holds {getNat so "pool_held"} addresses while {wantHeld} live sessions were given one: an address is released exactly when its session ends"⟩] else []) ++
         (if getNat so "teid_used" != wantTeid then
-          [⟨"C05", s!"{getNat so "teid_used"} TEIDs are in use but the live sessions have {wantTeid} UP-chosen TEIDs (TEIDs not returned)"⟩] else []) ++
+          [⟨"C05", s!"{getNat so "teid_used"} TEIDs are in use but the live sessions have {wantTeid} UP-chosen TEIDs (TEIDs not returned)"⟩,
+           ⟨"C07", s!"the generator records {getNat so "teid_used"} TEIDs in use while the live sessions hold {wantTeid} UP-chosen TEIDs: a TEID is in use exactly while the session it was chosen for lives"⟩] else []) ++
         (if getNat so "sessions" != live.length then
           [⟨"C05", s!"the store holds {getNat so "sessions"} session records, {live.length} sessions are live"⟩] else []) ++
         (if getNat so "gauge" != live.length then
